@@ -17,7 +17,7 @@ RULE = ("case = one history (object creations, triggers, loop steps, releases di
         "distinct = hash of the literal history string (objects, options, actions)")
 
 STEPS = [
-    dict(flavor="asan", harness="h_life", args=["--mode", "random"], cases=dict(quick=1200, thorough=24000),
+    dict(flavor="asan", harness="h_life", args=["--mode", "random"], cases=dict(quick=1000, thorough=24000),
          timeout=dict(quick=500, thorough=3000)),
     dict(flavor="asan", harness="h_life", args=["--mode", "enum"], cases=dict(quick=1080, thorough=1080 * 6), seed_off=11,
          timeout=dict(quick=500, thorough=3000)),
